@@ -702,6 +702,39 @@ def special_constraint_cases(g, rng):
     return cases
 
 
+def size_cases(g, rng, per_class):
+    """Legal shapes at unusual sizes (stixgen.size_variations): lists of 1..256 elements, strings of length 0 / 1 / 255 /
+    256, dictionary keys of a bound length, dictionary values nested up to 64 deep."""
+    cases = []
+    for cid in g.classes:
+        o = g.obj(cid, 0, {"safe": True}, optional_p=0.5)
+        routes = ["parse"] if sc.is_toplevel(g, cid) else ["construct"]
+        for lab, slot, x in stixgen.size_variations(g, cid, o)[:per_class]:
+            cases += sc.route_cases(g, cid, x, {"origin": "valid", "ckind": "size:" + lab, "slot": slot, "cid": cid}, rng, routes)
+    return cases
+
+
+def extension_type_cases(g, rng):
+    """2.1 objects carrying an UNREGISTERED extension-definition entry of every extension_type, with and without an
+    unknown top-level property, strict and allow_custom: only a toplevel-property-extension vouches for extra
+    top-level properties."""
+    cases = []
+    for cid in ("2.1/Identity", "2.1/File", "2.1/Note", "2.1/Relationship"):
+        base = g.obj(cid, 0, {"safe": True}, optional_p=0.0)
+        base.pop("extensions", None)
+        for et in ("property-extension", "toplevel-property-extension", "new-sdo", "new-sco", "new-sro", "x-property-extension", None):
+            ent = {"rating": 3} if et is None else {"extension_type": et, "rating": 3}
+            for extra in (True, False):
+                x = dict(base)
+                x["extensions"] = {"extension-definition--" + g.uuid(): ent}
+                if extra:
+                    x["rank"] = 5
+                for route in (["parse"], ["construct-allow"] if extra else []):
+                    if route:
+                        cases += sc.route_cases(g, cid, x, {"origin": "corrupt", "ckind": "extension-type", "slot": str(et), "cid": cid}, rng, route)
+    return cases
+
+
 def trivial(case, impl_line):
     return impl_line in ("ERR ExtraPropertiesError", "ERR ParseError")
 
@@ -755,6 +788,10 @@ def check(run):
                             allow_share=0.15)
     cases += witness_cases()
     cases += special_constraint_cases(g, run.rng)
+    cases += extension_type_cases(g, run.rng)
+    cases += size_cases(g, run.rng, 1 if quick else 3)
+    cases += sc.flag_sequences(g, run.rng, 8 if quick else 40)
+    cases += sc.argument_forms(cases, run.rng)
     # the kernel-evaluated refinement of the regenerated tables against the frozen spec
     failures = []
     live = None
@@ -789,8 +826,12 @@ def check(run):
             sc.correspond(run, cases, model, impl)
         except RuntimeError as e:
             run.broken.append(Broken("correspondence", "model evaluation failed", {"error": str(e)[-1500:]}))
-    # oracle on every strict success
-    found = oracle(run, cases, impl, extra, pats)
+    # oracle on every strict success (a failure of the evaluation itself is reported, it never ends the check)
+    try:
+        found = oracle(run, cases, impl, extra, pats)
+    except RuntimeError as e:
+        found = {}
+        run.broken.append(Broken("oracle", "evaluation of the specification validator failed", {"error": str(e)[-1500:]}))
     # every failing refinement slot must be explained by a failing input around it
     explained = set()
     for i, fids in found.items():
